@@ -36,5 +36,5 @@ Proof. exact ar_next_u_clean. Qed.
 Print Assumptions C13_exact_header_parser_agrees.
 
 Example C13_nonvacuous : wf_member {| m_name := s "debian-binary"; m_slash := true; m_ts := s "1"; m_uid := []; m_gid := s "0";
-                                      m_mode := s "100644"; m_size := s "3"; m_data := s "2.0" |}.
+                                      m_mode := s "100644"; m_size := s "3"; m_data := s "2.0"; m_pad := "000"%char |}.
 Proof. constructor; cbn; repeat split; try lia; try reflexivity; repeat constructor. Qed.
